@@ -1,17 +1,58 @@
 (* C10 - The DAG stays acyclic with a gap-free topological order.  Property theorems only. *)
-From Coq Require Import List NArith Bool.
-From PieV Require Import Model.Dag Proofs.DagBasics.
+From Coq Require Import List NArith Bool Permutation.
+From PieV Require Import Model.Dag Proofs.DagLib Proofs.DagWF Proofs.DagPath Proofs.DagAddEdge Proofs.DagRun.
+Import ListNotations.
 Open Scope N_scope.
 
-(* partial: rejection of self loops and of missing nodes leaves the graph exactly as it was
-   (the cycle-through-a-path case and the rank invariant are in progress, see DESIGN.md section 6) *)
-Theorem C10_reject_early_noop_partial :
-  forall (E : Type) (g : dag E) (s d : node) (e : E),
-    (live g s = false \/ live g d = false -> add_edge g s d e = (AErr NodeMissing, g)) /\
-    (live g s = true -> add_edge g s s e = (AErr CycleDetected, g)).
-Proof. intros; split; [apply add_edge_missing_noop | apply add_edge_selfloop_noop]. Qed.
-Check C10_reject_early_noop_partial :
-  forall (E : Type) (g : dag E) (s d : node) (e : E),
-    (live g s = false \/ live g d = false -> add_edge g s d e = (AErr NodeMissing, g)) /\
-    (live g s = true -> add_edge g s s e = (AErr CycleDetected, g)).
-Print Assumptions C10_reject_early_noop_partial.
+(* WF: duplicate-free ids and adjacency, symmetric adjacency, edges only between live nodes, edge data exactly on edges,
+   ranks injective on live nodes and within 1..n with n = number of nodes, rank(source) < rank(destination) for every edge. *)
+
+(* the invariant holds after EVERY finite sequence of add_node, add_edge, remove_edge, remove_outgoing_edges_of_node and
+   remove_node -- including operations on removed nodes -- in which no add_edge ran out of the (modelled) search fuel *)
+Theorem C10_invariant : forall (E : Type) (ops : list (gop E)), run_ok empty ops -> WF (grun ops).
+Proof. exact @grun_WF. Qed.
+Check C10_invariant : forall (E : Type) (ops : list (gop E)), run_ok empty ops -> WF (grun ops).
+Print Assumptions C10_invariant.
+
+(* the ranks form a bijection onto 1..n *)
+Theorem C10_ranks_bijection : forall (E : Type) (g : dag E), WF g ->
+  Permutation (map (rank_of g) (ids g)) (map N.of_nat (seq 1 (length (infos g)))).
+Proof. exact @WF_ranks_permutation. Qed.
+Print Assumptions C10_ranks_bijection.
+
+(* every edge increases the rank; hence the graph is acyclic *)
+Theorem C10_edges_increase_rank : forall (E : Type) (g : dag E), WF g -> forall u v, In v (kids_of g u) -> rank_of g u < rank_of g v.
+Proof. intros E g W. exact (wf_topo g W). Qed.
+Print Assumptions C10_edges_increase_rank.
+Theorem C10_acyclic : forall (E : Type) (g : dag E) u, WF g -> ~ path g u u.
+Proof. exact @WF_acyclic. Qed.
+Print Assumptions C10_acyclic.
+
+(* add_edge is rejected as a cycle exactly when both nodes are the same or the destination already reaches the source *)
+Theorem C10_cycle_iff : forall (E : Type) (g : dag E) s d e,
+  WF g -> live g s = true -> live g d = true -> fst (add_edge g s d e) <> AFuel ->
+  (fst (add_edge g s d e) = AErr CycleDetected <-> s = d \/ path g d s).
+Proof. exact @add_edge_cycle_iff. Qed.
+Check C10_cycle_iff : forall (E : Type) (g : dag E) s d e,
+  WF g -> live g s = true -> live g d = true -> fst (add_edge g s d e) <> AFuel ->
+  (fst (add_edge g s d e) = AErr CycleDetected <-> s = d \/ path g d s).
+Print Assumptions C10_cycle_iff.
+
+(* a rejected insertion leaves the graph EXACTLY as it was (structural equality of the whole state) *)
+Theorem C10_reject_noop : forall (E : Type) (g : dag E) s d e err,
+  WF g -> fst (add_edge g s d e) = AErr err -> snd (add_edge g s d e) = g.
+Proof. exact @add_edge_reject_noop. Qed.
+Print Assumptions C10_reject_noop.
+
+(* one step: add_edge preserves the invariant whenever it answers *)
+Theorem C10_add_edge_preserves : forall (E : Type) (g : dag E) s d e,
+  WF g -> fst (add_edge g s d e) <> AFuel -> WF (snd (add_edge g s d e)).
+Proof. exact @add_edge_WF. Qed.
+Print Assumptions C10_add_edge_preserves.
+
+(* non-vacuity: a run with a reorder, a rejected cycle, removals and an operation on a removed node satisfies run_ok *)
+Example C10_run_ok_witness :
+  run_ok (@empty N) [GAddNode; GAddNode; GAddNode; GAddNode; GAddEdge 3 2 1; GAddEdge 2 1 2; GAddEdge 1 3 3; GRemoveNode 2;
+                     GAddEdge 3 2 9; GAddEdge 1 0 4; GAddEdge 3 1 5; GRemoveOut 3; GRemoveEdge 1 0].
+Proof. vm_compute. repeat split; discriminate. Qed.
+Print Assumptions C10_run_ok_witness.
